@@ -11,6 +11,7 @@ for l in open(matrix):
     if m:
         det[m.group(1)] = m.group(2)
 kept = []
+arr = json.load(open('/verif/tools/arrival.json'))
 for d in sorted(os.listdir(root)):
     sd = os.path.join(root, d)
     if not re.match(r'^C\d+[a-z]$', d) or not os.path.isfile(os.path.join(sd, 'verified.json')):
@@ -44,6 +45,7 @@ for d in sorted(os.listdir(root)):
     else:
         out['detected_by'] = rules.split()
         out['status'] = 'detected'
+    out['caught_on_arrival'] = True if d in arr['caught'] else False if d in arr['missed'] else None
     dst = os.path.join('/verif/seeded', d)
     os.makedirs(dst, exist_ok=True)
     # keep an existing note about why a seed is missed
